@@ -250,10 +250,52 @@ def lift(v):
     raise Inconclusive("cannot lift %r" % (v,))
 
 
+OPAQUE_ARGS = {}
+
+
 def opaque(fname, *args):
     """Symbol standing for an uninterpreted application, named by the normal
     forms of its arguments."""
-    return RF.sym("%s(%s)" % (fname, ", ".join(a.key() if isinstance(a, RF) else str(a) for a in args)))
+    name = "%s(%s)" % (fname, ", ".join(a.key() if isinstance(a, RF) else str(a) for a in args))
+    OPAQUE_ARGS[name] = (fname, args)
+    return RF.sym(name)
+
+
+def reduce_relations(rf, rounds=8):
+    """Rewrite with the algebraic relations of the opaque symbols present:
+    sqrt(a)**2 = a and sin(t)**2 = 1 - cos(t)**2.  Returns an RF equal to the
+    input modulo those relations with exponents of sqrt/sin symbols < 2."""
+    cur = rf
+    for _ in range(rounds):
+        changed = False
+        for s in sorted(cur.symbols()):
+            info = OPAQUE_ARGS.get(s)
+            if not info:
+                continue
+            fname, args = info
+            if fname == "sqrt" and len(args) == 1:
+                repl = args[0]
+            elif fname == "sin" and len(args) == 1:
+                repl = RF.const(1) - opaque("cos", args[0]) ** 2
+            else:
+                continue
+            for which in ("n", "d"):
+                poly = RF(getattr(cur, which))
+                cp = poly.coeff_poly(s)
+                if any(e >= 2 or e < 0 for e in cp):
+                    if any(e < 0 for e in cp):
+                        continue
+                    new = RF.const(0)
+                    for e, c in cp.items():
+                        new = new + c * (RF.sym(s) ** (e % 2)) * (repl ** (e // 2))
+                    if which == "n":
+                        cur = new / RF(cur.d)
+                    else:
+                        cur = RF(cur.n) / new
+                    changed = True
+        if not changed:
+            break
+    return cur
 
 
 # --------------------------------------------------------------------------
